@@ -54,6 +54,35 @@ pub struct Config {
     pub bare: bool,
 }
 
+impl Config {
+    fn to_json(&self) -> serde_json::Value {
+        json!({"check": self.check, "format": self.format, "graph": self.graph, "verbose": self.verbose, "short": self.short,
+            "out": format!("{:?}", self.out), "pre_lexer": self.pre_lexer, "pre_parser": self.pre_parser, "verdict": format!("{:?}", self.verdict),
+            "formatted": self.formatted, "bare": self.bare})
+    }
+    fn from_json(v: &serde_json::Value) -> Option<Config> {
+        let b = |k: &str| v[k].as_bool().unwrap_or(false);
+        let out = match v["out"].as_str()? {
+            "Default" => OutKind::Default,
+            "OtherDir" => OutKind::OtherDir,
+            "RegularFile" => OutKind::RegularFile,
+            "MissingDir" => OutKind::MissingDir,
+            _ => return None,
+        };
+        let verdict = match v["verdict"].as_str()? {
+            "Accepted" => Verdict::Accepted,
+            "Warnings" => Verdict::Warnings,
+            "SyntaxError" => Verdict::SyntaxError,
+            "SemanticError" => Verdict::SemanticError,
+            "Missing" => Verdict::Missing,
+            "IsDir" => Verdict::IsDir,
+            "NotUtf8" => Verdict::NotUtf8,
+            _ => return None,
+        };
+        Some(Config { check: b("check"), format: b("format"), graph: b("graph"), verbose: v["verbose"].as_u64().unwrap_or(0) as u8, short: b("short"), out, pre_lexer: b("pre_lexer"), pre_parser: b("pre_parser"), verdict, formatted: b("formatted"), bare: b("bare") })
+    }
+}
+
 type Snap = BTreeMap<String, (Vec<u8>, std::time::SystemTime)>;
 
 fn snapshot(root: &Path) -> Snap {
@@ -180,7 +209,7 @@ fn run_config(c: &Config, text: &str, dir: &Path) -> Result<bool, Violation> {
     let out = cmd.output().expect("cannot run llw");
     let after = snapshot(dir);
     let stderr = String::from_utf8_lossy(&out.stderr).to_string();
-    let replay = json!({"config": format!("{c:?}"), "grammar": text});
+    let replay = json!({"config": c.to_json(), "grammar": text});
     let viol = |sig: &str, what: String| Violation { sig: sig.to_string(), what: format!("{what} [config {c:?}; exit {:?}]", out.status.code()), replay: replay.clone() };
     if stderr.contains("panicked at") || out.status.code().is_none() || out.status.code() == Some(101) {
         let line = stderr.lines().find(|l| l.contains("panicked at")).unwrap_or("").to_string();
@@ -324,6 +353,29 @@ pub fn all_configs() -> Vec<Config> {
 pub fn run(ctx: &Ctx) -> i32 {
     let mut ev = Evidence::new("C19", ctx.tier, ctx.seed, RULE);
     let mut rep = Report::new("C19");
+    // saved reproductions: configuration + the text of the grammar file
+    let files = match &ctx.replay {
+        Some(p) => vec![p.clone()],
+        None => super::replay_files("C19"),
+    };
+    for f in &files {
+        let Ok(s) = std::fs::read_to_string(f) else { continue };
+        let Ok(v) = serde_json::from_str::<serde_json::Value>(&s) else { continue };
+        let (Some(c), Some(text)) = (Config::from_json(&v["replay"]["config"]), v["replay"]["grammar"].as_str()) else { continue };
+        let dir = lab::scratch_root().join("c19-replay");
+        ev.eval();
+        ev.label("replayed");
+        if let Err(v) = run_config(&c, text, &dir) {
+            rep.violation(v);
+        }
+        let _ = std::fs::remove_dir_all(&dir);
+    }
+    if ctx.replay.is_some() {
+        lab::cleanup_scratch();
+        let code = rep.finish(&mut ev);
+        ev.write();
+        return code;
+    }
     let per = ctx.tier.pick(8, 40);
     let pools = build_pools(ctx.seed, per);
     ev.set("pool_sizes", json!({"accepted": pools.accepted.len(), "warnings": pools.warnings.len(), "syntax": pools.syntax.len(), "semantic": pools.semantic.len()}));
